@@ -657,16 +657,31 @@ impl Catalog {
         snapshot: &Snapshot,
         cascade: bool,
     ) -> CatalogResult<()> {
-        if cascade {
-            let schema = rel.schema();
-            let dependants = schema.get_dependants();
-
-            // Recursively remove object dependants
-            for dep in dependants {
-                let relation = self.get_relation(dep, builder, snapshot)?;
-                self.remove_relation(relation, builder, snapshot, cascade)?;
-            }
+        // A table's own indexes go with the table whatever the CASCADE flag says (CASCADE is about the
+        // objects of other tables that depend on this one): left behind they keep their names taken and
+        // their pages are never released.
+        let dependants: Vec<ObjectId> = if cascade {
+            rel.schema().get_dependants()
+        } else if rel.is_index() {
+            Vec::new()
+        } else {
+            rel.schema()
+                .table_indexes
+                .as_ref()
+                .map(|indexes| indexes.keys().copied().collect())
+                .unwrap_or_default()
         };
+
+        // Recursively remove object dependants
+        for dep in dependants {
+            let relation = match self.get_relation(dep, builder, snapshot) {
+                Ok(relation) => relation,
+                // registered in the table's schema but gone (or never committed): nothing to remove
+                Err(CatalogError::TableNotFound(_)) => continue,
+                Err(other) => return Err(other),
+            };
+            self.remove_relation(relation, builder, snapshot, cascade)?;
+        }
 
         // The pages of the relation are NOT released here: the transaction may still be rolled back,
         // and older snapshots may still read the relation. VACUUM releases the tree when it removes
